@@ -20,6 +20,7 @@ class Harness:
             w = S.W
             w.event(op="cfg", **scen["judge"])
             S.CPU_COUNT[0] = scen.get("cpu", 2)
+            S.PIPE_CAP[0] = scen.get("pipe", 0)
             if scen["pool"] == "functormap":
                 mod = S.load(POOLS, "pools_sim")
                 fm = mod.FunctorMap(f, scen["nw"])
@@ -74,11 +75,15 @@ def scenarios(rnd, quick):
         dict(pool="mulpmap", nw=3, cpu=1, calls=[dict(n=2)]),                            # work queue smaller than the workers
         dict(pool="mulpmap", nw=2, cpu=2, calls=[dict(n=0)]),
         dict(pool="mulpmap", nw=2, cpu=2, calls=[dict(n=2), dict(n=3)]),                 # class-level queues survive the call
+        # results larger than the pipe buffer: a worker cannot exit before its results were read
+        dict(pool="mulpmap", nw=2, cpu=2, pipe=1, calls=[dict(n=4)]),
+        dict(pool="mulpmap", nw=1, cpu=1, pipe=1, calls=[dict(n=3), dict(n=2)]),
+        dict(pool="functormap", nw=2, pipe=1, calls=[dict(n=4, chunk=1), dict(n=2, chunk=1)]),
     ]
     for _ in range(3 if quick else 20):
         kind = rnd.choice(["functormap", "mulpmap"])
         calls = [dict(n=rnd.randint(0, 6), chunk=rnd.randint(1, 3), lazy=rnd.random() < 0.4) for _ in range(rnd.randint(1, 3))]
-        out.append(dict(pool=kind, nw=rnd.randint(1, 3), cpu=rnd.randint(1, 3), calls=calls))
+        out.append(dict(pool=kind, nw=rnd.randint(1, 3), cpu=rnd.randint(1, 3), pipe=rnd.choice([0, 0, 1, 2]), calls=calls))
     for i, s in enumerate(out):
         s["judge"] = JUDGE
         s["name"] = "p%d" % i
